@@ -113,6 +113,25 @@ def stepPure (toks : List String) : Option String :=
       pure (match initializePoolV2 (if order = 1 then 2 else 1) (if order = 0 then 2 else 1) a b price ts tierTs fee proto with
         | .ok (p, nt) => s!"ok {p.feeRate} {p.protoRate} {p.price} {p.tick} {if nt then 1 else 0}"
         | .error e => "err " ++ e)
+  | ["xinitaf", price, order, proto, now, te, authMode, perm, ts, fee, fp, dp, rf, cf, mv, gs, th,
+     pa, na, fa, ha, ba, pb, nb, fb, hb, bb] => do
+      let price ← price.toNat?; let order ← order.toNat?; let proto ← proto.toNat?; let now ← now.toNat?
+      let te : Option Nat ← (if te == "-" then some none else te.toNat?.map some)
+      let authMode ← authMode.toNat?; let perm ← b01 perm; let ts ← ts.toNat?; let fee ← fee.toNat?
+      let fp ← fp.toNat?; let dp ← dp.toNat?; let rf ← rf.toNat?; let cf ← cf.toNat?
+      let mv ← mv.toNat?; let gs ← gs.toNat?; let th ← th.toNat?
+      let pa ← b01 pa; let na ← b01 na; let fa ← b01 fa; let ba ← ba.toNat?
+      let pb ← b01 pb; let nb ← b01 nb; let fb ← b01 fb; let bb ← bb.toNat?
+      let ta ← (if ha == "-" then some [] else parseHex ha.toList)
+      let tb ← (if hb == "-" then some [] else parseHex hb.toList)
+      let a : MintIn := { token2022 := pa, native := na, freeze := fa, tlv := ta, badge := ba }
+      let b : MintIn := { token2022 := pb, native := nb, freeze := fb, tlv := tb, badge := bb }
+      let c : AfConstants := { filterPeriod := fp, decayPeriod := dp, reductionFactor := rf, controlFactor := cf, maxVolAcc := mv,
+                               groupSize := gs, majorSwapThresholdTicks := th }
+      pure (match initializePoolWithAdaptiveFee (if order = 1 then 2 else 1) (if order = 0 then 2 else 1) a b price proto now te
+                    authMode perm ts fee c with
+        | .ok (p, nt, t) => s!"ok {p.feeRate} {p.protoRate} {p.price} {p.tick} {if nt then 1 else 0} {t}"
+        | .error e => "err " ++ e)
   | ["mdr", n0, n1, d, up] => do
       let n0 ← n0.toNat?; let n1 ← n1.toNat?; let d ← d.toNat?; let up ← b01 up
       pure (showR ((checkedMulDivRoundUpIf n0 n1 d up).map toString))
